@@ -37,6 +37,16 @@ def _setup(case):
 def impl(case):
     p, enc = _setup(case)
     which = gen.which_to_py(case["which"])
+    if case.get("prime"):
+        # the same question is first put to pools that are == / hash-equal to p, die by die, without being p (every count
+        # doubled; one die doubled): whatever they leave behind must not colour p's answer (C13 explores this at large)
+        from dyce import H, P
+
+        for twin in (P(*[H({o: 2 * k for o, k in h.items()}) for h in p]), P(*([H({o: 2 * k for o, k in p[0].items()})] + list(p)[1:])) if len(p) else P()):
+            try:
+                list(twin.rolls_with_counts(*which))
+            except IndexError:
+                pass
     try:
         c = Counter()
         for roll, cnt in p.rolls_with_counts(*which):
@@ -92,7 +102,7 @@ def generate(rnd, tier, scale):
             dice = [[[o, memo.setdefault((o, c), c * rnd.choice(bigs)) if c else 0] for o, c in h] for h in dice]
         # len(P) may differ from len(dice) (zero-total dice are dropped), so size the selection on P
         ncur = len([h for h in dice if any(c for _, c in h)])
-        yield dict(dice=dice, which=gen.rand_which(rnd, ncur))
+        yield dict(dice=dice, which=gen.rand_which(rnd, ncur), **({"prime": True} if rnd.random() < 0.2 else {}))
     if tier == "thorough":
         # exhaustive small scope: all pools of <= 3 dice over a catalogue x all selections of <= 2 identifiers, n <= 3
         cat = [h for h in gen.catalogue() if any(c for _, c in h)][:14]
